@@ -354,13 +354,16 @@ func runStrict(w *World, sl *Slots, p *core.Plan, res *core.Result, prop string)
 			ms.queue = nil
 			if it.C != 0 {
 				wq := (it.C - 1) % 3
-				wr := (it.C-1)/3 == 1
+				wr := (it.C-1)/3%2 == 1
 				topic := "will/" + fmt.Sprint(it.P)
 				if len(it.L) > 0 {
 					topic = Topics[it.L[0]%len(Topics)]
 				}
 				tg := 900000 + cur.Idx
 				rb.wills[it.P] = &willMsg{topic: topic, payload: string(MsgPayload(tg, 0)), tag: tg, qos: wq, retain: wr}
+				if it.C > 6 {
+					rb.wills[it.P].payload, rb.wills[it.P].tag = "", -1
+				}
 			}
 		case "sub":
 			if ms := rb.bySlot[it.P]; ms != nil && rb.live[it.P] {
@@ -392,6 +395,9 @@ func runStrict(w *World, sl *Slots, p *core.Plan, res *core.Result, prop string)
 				retain := it.B == 1
 				if it.B == 2 {
 					pl, retain, tag = "", true, -1
+				}
+				if it.B == 3 {
+					pl, tag = "", -1
 				}
 				rb.publish(sl, pending, it.S, it.A%3, retain, pl, tag)
 			}
